@@ -359,20 +359,21 @@ Definition parse_closure (ap : bool) (c : closure) : pres pstate :=
 (* yaml_dict[section].update(data[section]) per file in DFS completion order, dumped as ONE file that
    parse_text re-reads section by section.  The only key that can repeat across files is _RESERVED_
    (every other duplicate name is a DuplicateNameError): dict.update keeps the position of the first
-   occurrence and the value of the last. *)
+   occurrence; parse_text (since bcffd4b) stores under that key the id list of the block already there
+   followed by the id list of the file just read, i.e. the concatenation of all blocks in parse order. *)
 Definition is_reserved (i : item) : bool := match i with IReserved _ => true | _ => false end.
-Definition last_reserved (l : list item) : option item :=
-  fold_left (fun acc i => if is_reserved i then Some i else acc) l None.
-Fixpoint merge_reserved (l : list item) (lastr : option item) (seen : bool) : list item :=
+Definition reserved_ids_of (i : item) : list Z := match i with IReserved ids => ids | _ => [] end.
+Definition all_reserved (l : list item) : list Z := flat_map reserved_ids_of l.
+(* allr = every reserved id of the closure; the one surviving block sits where the first block was *)
+Fixpoint merge_reserved (l : list item) (allr : list Z) (seen : bool) : list item :=
   match l with
   | [] => []
   | i :: r => if is_reserved i then
-                (if seen then merge_reserved r lastr true
-                 else match lastr with Some x => x :: merge_reserved r lastr true | None => merge_reserved r lastr true end)
-              else i :: merge_reserved r lastr seen
+                (if seen then merge_reserved r allr true else IReserved allr :: merge_reserved r allr true)
+              else i :: merge_reserved r allr seen
   end.
 Definition combined_items (l : list item) : list item :=
-  by_section (merge_reserved l (last_reserved l) false).
+  by_section (merge_reserved l (all_reserved l) false).
 Definition reparse_combined (ap : bool) (l : list item) : pres pstate := parse_items ap (combined_items l).
 
 (* ------------------------------------------------------------------ emission: events *)
